@@ -128,6 +128,12 @@ def stop(ctx: Ctx, rule="R-C10-STOP") -> None:
               "finished task counted before the limit is evaluated", "the M-th finished task triggers the stop",
               "_task_callback evaluates the limit before counting the finished task: the stop event is set one task late (run() does not return after M)",
               instance="count before test")
+    ctx.check(bool(incr) and flow.must_pass(g, g.entry.id, [g.exit.id], [i.id for i in incr], flow.NORMAL_KINDS) and
+              flow.must_pass(g, g.entry.id, [g.exit.id], [t.id for t in tests], flow.NORMAL_KINDS), rule, cb,
+              "every finished task is counted and the limit evaluated, however the task ended", "no early way out of the done-callback",
+              "_task_callback can return without counting the finished task / evaluating the limit (e.g. for a task that ended with an exception): the M-th execution is never "
+              "registered, the stop event is never set and run() does not return although its M executions are over", instance="count on every path")
+
     def hit_env(hit):
         def fn(text, node):
             if isinstance(node, ast.Attribute) and node.attr == "max_tasks_hit":
